@@ -19,7 +19,10 @@ GREATER = {"ugt": 1, "sgt": 1, "uge": 0, "sge": 0}
 
 
 class Sym:
-    def __init__(self, an, facts=None):
+    def __init__(self, an, facts=None, ideal=False):
+        # ideal: reason over mathematical integers (casts transparent, no wrap-around): only for rules that state
+        # the corresponding size assumption explicitly
+        self.ideal = ideal
         self.an = an
         self.fn = an.fn
         self.F = facts or Facts(an.fn)
@@ -27,6 +30,7 @@ class Sym:
         self.k2 = {}           # atom id -> operand (the value is <= that operand's value, both non-negative)
         self._la = {}
         self._ind_guard = set()
+        self._cons = {}
 
     # ---- linear forms -----------------------------------------------------------------
     def iv(self, o, inst):
@@ -43,6 +47,14 @@ class Sym:
         if d.is_param:
             return Lin(0, {o[1]: 1})
         w = self.an.width(d.ty)
+        if self.ideal and d.op in ("zext", "sext", "trunc"):
+            return self.lin(d.ops[0], inst, depth + 1)
+        if self.ideal and d.op in ("add", "sub"):
+            a = self.lin(d.ops[0], inst, depth + 1)
+            b = self.lin(d.ops[1], inst, depth + 1)
+            if a is None or b is None:
+                return Lin(0, {o[1]: 1})
+            return a.add(b, 1 if d.op == "add" else -1)
         if d.op in ("zext", "sext"):
             src = self.iv(d.ops[0], inst)
             if src is not None and not src.bot() and (d.op == "sext" or src.lo >= 0):
@@ -157,6 +169,7 @@ class Sym:
                 out.append(lx.add(rest, -1).add(Lin(GREATER[p]), -1))
         out.extend(self._loop_exit_ub(a, inst))
         out.extend(self._phi_inductive_ub(a, inst))
+        out.extend(self._conservation(a, inst))
         d = self.fn.defn(o)
         if d is not None and not d.is_param and d.op == "phi" and len(d.incoming) <= 4:
             # min shape: every incoming is <= candidate incoming U
@@ -276,8 +289,60 @@ class Sym:
                     work.append(s_)
         return False
 
+    def _conservation(self, a, inst):
+        """loop-header phi P with a sibling Q such that every iteration changes them by opposite amounts:
+        P + Q is constant, so P == init_P + init_Q - Q (returned as a bound in both directions)"""
+        if a in self._cons:
+            return self._cons[a]
+        res = []
+        d = self.fn.vals.get(a)
+        if d is not None and not getattr(d, "is_param", False) and d.op == "phi":
+            lp = None
+            for l in self.fn.loops():
+                if l["header"] == d.block.id:
+                    lp = l
+            if lp is not None:
+                hdr = self.fn.blocks[lp["header"]]
+
+                def delta(phi):
+                    ds = None
+                    init = None
+                    for v, pb in phi.incoming:
+                        term = self.fn.blocks[pb].term
+                        if pb in lp["body"]:
+                            lv = self.lin(v, term)
+                            if lv is None:
+                                return None
+                            dl = lv.add(Lin(0, {phi.id: 1}), -1)
+                            if phi.id in dl.t:
+                                return None
+                            if ds is None:
+                                ds = dl
+                            elif ds != dl:
+                                return None
+                        else:
+                            li = self.lin(v, term)
+                            if li is None or init is not None:
+                                return None
+                            init = li
+                    return (ds, init) if ds is not None and init is not None else None
+
+                dp = delta(d)
+                if dp is not None and dp[0].t:
+                    for q in hdr.insts:
+                        if q.op != "phi" or q.id == a or self.an.is_ptr(q.ty):
+                            continue
+                        dq = delta(q)
+                        if dq is None:
+                            continue
+                        if dp[0].add(dq[0]) == Lin(0):
+                            S = dp[1].add(dq[1])
+                            res.append(S.add(Lin(0, {q.id: 1}), -1))
+        self._cons[a] = res
+        return res
+
     def atom_lbs(self, a, inst):
-        out = []
+        out = list(self._conservation(a, inst))
         for f in self.F.at_inst(inst):
             p, x, y = f
             if p not in LESS and p not in GREATER:
@@ -296,6 +361,8 @@ class Sym:
         return out
 
     def _nonneg(self, o, inst):
+        if self.ideal:
+            return True
         v = self.iv(o, inst)
         return v is not None and not v.bot() and v.lo >= 0
 
